@@ -260,7 +260,8 @@ class R(object):
 
 
 def _esc(t):
-    return t.replace('&', '&amp;').replace('<', '&lt;').replace('>', '&gt;')
+    # a carriage return must travel as a character reference, a literal one is normalised away by XML parsers
+    return t.replace('&', '&amp;').replace('<', '&lt;').replace('>', '&gt;').replace('\r', '&#13;')
 
 
 def _ser(n):
@@ -301,7 +302,9 @@ VALUE_TEXT = ['x', 'abc', '1', '[1,2]', '[1,b]', '[]', '[', ']', '[a', 'a]', '(1
               '()', '(;)', '"', 'a"b,c', '[a"b,c]', '["a,b",c]', '[\n]', 'True', 'maybe', '[True,0]', '2020-13-01',
               '2020-01-02', '25:00:00', '12:30:01', '2020-01-02 03:04:05', '²', '٣', 'inf', 'nan', '1e999', '-0', '[,]',
               '[ 1 , 2 ]', '1.0', '0x10', '1_000', '[[1]]', ' ', 'é²٣', '[' + ','.join(['7'] * 400) + ']', '[a,,b]',
-              '[1;2]', '(1;2', '1;2)', '[(1;2),(3)]', '[(1;2)(3;4)]', '((1;2))']
+              '[1;2]', '(1;2', '1;2)', '[(1;2),(3)]', '[(1;2)(3;4)]', '((1;2))',
+              # text the csv layer may choke on: bare carriage return / line separators / unbalanced quotes in a list
+              '[a\rb]', '[a\rb,c]', 'a\rb', '[a\u2028b,c]', '["a]', '[a,"b]', '["a""]', '[\x85]', '["a"b,c]']
 UNC_TEXT = ['0.5', 'abc', '²', 'nan', 'inf', '-1', '1e999', '1,5', '[1]']
 NAME_TEXT = ['zz_new', 'a/b', '..', '/', 'é²٣', ' lead', UUIDS[2]]
 STYPE_TEXT = ['t', 'n.s.', 'a/b']
